@@ -108,4 +108,59 @@ WF(s) == C01_State(s) /\ C02_State(s)
 (* logged, the lookup table)                                                *)
 C14_RefusedUnchanged(pre, out, post) == out # "ok" => post = pre
 
+---------------------------------------------------------------------------
+(* C10 - sibling names stay unique; refusal is exact; lookup agrees with a  *)
+(* scan.  The naming relation (Collides, EdifLegal, Compliant) is the one   *)
+(* defined in IR.tla by scanning the current siblings - there is no index.  *)
+NamedKinds == {"L", "D", "P", "C", "I"}
+C10_Unique(s) ==
+    \A kind \in NamedKinds : \A p \in 1..CountOf(s, ParentKind(kind)) :
+        LET pol == NsOf(s, ParentKind(kind), p)
+            sibs == SiblingsOf(s, kind, p) IN
+        pol # NoVal =>
+          \A a, b \in DOMAIN sibs : a # b =>
+             LET da == DataOf(s, kind, sibs[a])  db == DataOf(s, kind, sibs[b]) IN
+             /\ ~(da.name # NoVal /\ da.name = db.name)
+             /\ pol = "EDIF" => ~(da.eid # NoVal /\ db.eid # NoVal /\ Fold(da.eid) = Fold(db.eid))
+C10_LegalIds(s) ==
+    \A kind \in FirstClass : \A x \in 1..CountOf(s, kind) :
+        LET d == DataOf(s, kind, x) IN (d.ns = "EDIF" /\ d.eid # NoVal) => EdifLegal(d.eid)
+
+(* when exactly a naming-relevant, structurally valid edit must be refused  *)
+C10_Applies(pre, c) ==
+    \/ c.op = "add" /\ Rel[c.rel].ck \in FirstClass /\ Exists(pre, Rel[c.rel].pk, c.p)
+         /\ Exists(pre, Rel[c.rel].ck, c.x) /\ pre[Rel[c.rel].back][c.x] = None
+    \/ c.op = "create" /\ Rel[c.rel].ck \in FirstClass /\ Exists(pre, Rel[c.rel].pk, c.p)
+    \/ c.op = "create_child" /\ c.p \in IdsD(pre) /\ (c.ref = None \/ c.ref \in IdsD(pre))
+    \/ c.op = "set_name" /\ c.kind \in FirstClass /\ Exists(pre, c.kind, c.x)
+    \/ c.op \in {"del_name", "set_name_none", "del_item", "pop_item"} /\ c.kind \in FirstClass
+         /\ Exists(pre, c.kind, c.x)
+         /\ (c.op \in {"del_item", "pop_item"} => c.key \in {"name", "eid"} /\ DataOf(pre, c.kind, c.x)[c.key] # NoVal)
+         /\ (c.op = "set_name_none" => DataOf(pre, c.kind, c.x).name # NoVal)
+    \/ c.op = "set_item" /\ c.key \in {"name", "eid"} /\ c.kind \in FirstClass /\ Exists(pre, c.kind, c.x)
+C10_MustRefuse(pre, c) ==
+    CASE c.op = "add" -> AddVetoed(pre, Rel[c.rel].ck, c.p, c.x)
+      [] c.op \in {"create", "create_child"} ->
+           LET kind == IF c.op = "create" THEN Rel[c.rel].ck ELSE "I" IN
+           /\ c.name # NoVal /\ HasNamespace(pre, ParentKind(kind), c.p)
+           /\ Collides(pre, kind, c.p, 0, "name", c.name)
+      [] c.op \in {"del_name", "set_name_none", "del_item", "pop_item"} -> FALSE   \* freeing a name is never refused
+      [] c.op \in {"set_name", "set_item"} ->
+           LET key == IF c.op = "set_name" THEN "name" ELSE c.key
+               p == ParentOf(pre, c.kind, c.x) IN
+           \/ DataOf(pre, c.kind, c.x).ns = "EDIF" /\ key = "eid" /\ ~EdifLegal(c.val)
+           \/ p # None /\ HasNamespace(pre, ParentKind(c.kind), p) /\ Collides(pre, c.kind, p, c.x, key, c.val)
+C10_RefusalExact(pre, c, out) ==
+    C10_Applies(pre, c) => ((out # "ok") <=> C10_MustRefuse(pre, c))
+
+(* lk: the logged lookup table, one entry per (parent, child kind, key,     *)
+(* value): [pk, p, ck, key, val, res] with res the ids the query returned   *)
+C10_LookupEntryOK(s, e) ==
+    LET sibs == SiblingsOf(s, e.ck, e.p)
+        pol == NsOf(s, e.pk, e.p)
+        hit(y) == LET v == DataOf(s, e.ck, y)[e.key] IN
+                  v # NoVal /\ (IF e.key = "eid" /\ pol = "EDIF" THEN Fold(v) = Fold(e.val) ELSE v = e.val)
+    IN NoDup(e.res) /\ SeqSet(e.res) = {y \in SeqSet(sibs) : hit(y)}
+C10_LookupAgrees(s, lk) == \A j \in DOMAIN lk : C10_LookupEntryOK(s, lk[j])
+
 =============================================================================
